@@ -198,6 +198,8 @@ def verdict(doc, answer, mode, workdir, label=''):
         f.write(answer)
     with watchdog(150):
         ctxopt = ['--context', '0'] if label.startswith('multi:') else []
+        if mode == 'html':
+            ctxopt.append('--link')     # links to rule descriptions are part of the report as well
         rc, out, err = sut.run_shell(['--output', mode, '--language', 'de'] + ctxopt + ['t.tex'], workdir,
                                      plan={'mode': 'raw', 'file': os.path.join(workdir, 'answer.bin')})
     err = err.decode('utf-8', 'replace')
